@@ -13,11 +13,12 @@ CFG = {
     "rule": "one case = one history on the real state.StateDB over state.NewDatabase(MemDatabase): 240 directed histories (the interleavings named "
             "in the property record: revert across self-destruct of a re-created account, suicide/finalise/re-create/revert, RIPEMD touch, storage "
             "set/clear, CreateAccount balance carry-over, copy independence, refund wrap-around, nested log/preimage reverts) with random "
-            "continuation + 1800 random histories of 10-60 actions (thorough: 2400 + 40000, up to 80) drawn from create, add/sub/set balance, "
+            "continuation + 1800 random histories of 10-60 actions (thorough: 2400 + 60000, up to 80) drawn from create, add/sub/set balance, "
             "set nonce, set code, set/clear storage, self-destruct, touch, log, refund, preimage, Prepare, snapshot, revert to any live id, "
             "Finalise/IntermediateRoot/Commit with per-history uniform or mixed delete-empty flag, Reset/reopen at any committed root, Copy, "
             "swap to the copy, net-effect replay; value lattice 0,1,2^64-1,2^64,2^255,2^256-1; a malformed stream (dead revert ids, overdrafts, "
-            "negative amounts, use after Commit). After every action every getter of 5 accounts x 3 slots, refund, logs, preimages, the dirty "
+            "negative amounts, use after Commit); 35% of the histories are 'cold-cache' (getters read only at Finalise/IntermediateRoot/Commit/end, so "
+            "values never read through the StateDB stay uncached). After every action (cold: at the checkpoints) every getter of 5 accounts x 3 slots, refund, logs, preimages, the dirty "
             "set, callback flags and journal/revision lengths are compared with the Lean model; the real code is judged directly (J1 revert "
             "restores the recorded view, J2 root = root of a plain trie built from the reported content, J3 reopen/Reset read back, J4 copy "
             "reads back and is independent, J6 the history with reverted segments erased gives the same view and root). Non-trivial = the "
